@@ -3,6 +3,8 @@ import ThunderProofs.Properties.C12
 #print axioms TM.Properties.C12.check_enforced
 #print axioms TM.Properties.C12.ok_implies_carries
 #print axioms TM.Properties.C12.error_touches_nothing
+#print axioms TM.Properties.C12.chunks_flatten
+#print axioms TM.Properties.C12.insertRows_all_or_nothing
 #print axioms TM.Properties.C12.batch_keeps_limit
 #print axioms TM.Properties.C12.batch_rejects
 #print axioms TM.Properties.C12.update_where_not_confined
